@@ -172,11 +172,12 @@ def check(tier, seed, runs, workers, secs):
     known = V.load_known()
     unlisted, known_hits, unconfirmed = [], {}, []
     by_class = {}
-    # up to six candidates per class (see verif.py: a violation may need what preceded it in its worker)
-    for v in sorted(violations, key=lambda v: int(v["run_index"])):
+    # up to eight candidates per class (see verif.py: a violation may need what preceded it in its worker)
+    # (runs early in their worker process first: they have the least inherited state)
+    for v in sorted(violations, key=lambda v: (int(v["run_index"]) % max(1, cfg["chunk"]), int(v["run_index"]))):
         if "violation" in v:
             c = by_class.setdefault(v["violation"]["class"], [])
-            if len(c) < 6:
+            if len(c) < 8:
                 c.append(v)
     candidates = []
     for vclass, vs in sorted(by_class.items()):
